@@ -16,10 +16,10 @@ theorem readIndex_lt {s : Str} {n : Nat} (h : readIndex s = some n) : n < 2 ^ 64
   · split at h
     · exact absurd h (by simp)
     · split at h
-      · rename_i h1 h2 h3
-        simp only [Bool.and_eq_true, decide_eq_true_eq] at h3
-        injection h with h; omega
-      · injection h with h; omega
+      · exact absurd h (by simp)
+      · split at h
+        · exact absurd h (by simp)
+        · injection h with h; omega
 
 theorem readInt_range {s : Str} {z : Int} (h : readInt s = some z) :
     -(2 ^ 31 : Int) ≤ z ∧ z < 2 ^ 31 := by
@@ -28,12 +28,14 @@ theorem readInt_range {s : Str} {z : Int} (h : readInt s = some z) :
   split at h
   · exact absurd h (by simp)
   · split at h
+    · exact absurd h (by simp)
     · split at h
-      · exact absurd h (by simp)
-      · injection h with h; omega
-    · split at h
-      · exact absurd h (by simp)
-      · injection h with h; omega
+      · split at h
+        · exact absurd h (by simp)
+        · injection h with h; omega
+      · split at h
+        · exact absurd h (by simp)
+        · injection h with h; omega
 
 /-! ### characters -/
 
